@@ -45,7 +45,7 @@ static void ptxt(const char *fmt, ...) {
 }
 #define BAD(key, ...) do { char _b[600]; snprintf(_b, sizeof(_b), __VA_ARGS__); vf_fail(key, "%s seed=%llu dtor=%d: %s | program: %s", kname[c->k], cur_seed, c->with_dtor, _b, prog_txt); } while (0)
 
-static long long st_ops, st_itr_rm_last, st_itr_rm_first, st_itr_rm_mid, st_itr_set, st_itr_ins, st_after_itr_edit_ops, st_dtor, st_itr_rm_twice_list;
+static long long st_ops, st_itr_rm_last, st_itr_rm_first, st_itr_rm_mid, st_itr_set, st_itr_ins, st_after_itr_edit_ops, st_dtor, st_itr_rm_twice_list, st_itr_ins_after_rm;
 
 /* --- adapters --- */
 static ssize_t c_len(cont_t *c) { return c->k == Q ? m_queue_len(c->q) : c->k == S ? m_stack_len(c->s) : m_list_len(c->l); }
@@ -265,6 +265,22 @@ static void op_walk(cont_t *c, const uint8_t *act, int nact) {
                 r = c->k == Q ? m_queue_itr_remove(itr) : m_stack_itr_remove(itr);
                 if (r >= 0) BAD("C12/itr-remove-twice", "second remove returned %d", r);
                 expect_dtor(c, NULL, 0, "refused iterator ops");
+            }
+            if (c->k >= L && a == 6 && c->n < MAXN - 2) {
+                /* list: an element inserted right after a removal takes the removed one's place - also at the very end of
+                 * the list, where the iterator stands behind the last element - and becomes the current element */
+                elem_t *ne = new_elem(9);
+                if (ne) {
+                    ptxt("then ins(e%d) ", ne->id);
+                    r = m_list_itr_insert(itr, ne);
+                    if (r != 0) BAD("C12/itr-insert-ret", "itr_insert at the position of the element just removed (%s) returned %d", last ? "the last one" : first ? "the first one" : "a middle one", r);
+                    else {
+                        m_insert_at(c, cur, ne->id);
+                        removed = false;        /* the inserted element is the current one: next() moves past it */
+                        st_itr_ins_after_rm++;
+                    }
+                    expect_dtor(c, NULL, 0, "itr_insert after itr_remove");
+                }
             }
             if (c->k >= L && a == 5) {
                 /* list: the iterator now stands on the successor; a second remove without next() in between drops that
@@ -491,6 +507,7 @@ int main(int argc, char **argv) {
     vf_stat("itr_remove_middle", st_itr_rm_mid);
     vf_stat("itr_set", st_itr_set);
     vf_stat("itr_insert", st_itr_ins);
+    vf_stat("itr_insert_right_after_itr_remove", st_itr_ins_after_rm);
     vf_stat("walks_with_edits", st_after_itr_edit_ops);
     vf_stat("destructor_calls_checked", st_dtor);
     fflush(stdout);
